@@ -1096,6 +1096,11 @@ impl Task {
                 });
 
                 if is_updated {
+                    // the holder of the variable changed: keep its stored row in step
+                    t.runtime
+                        .cache()
+                        .upsert(t)
+                        .unwrap_or_else(|err| error!("update_data upsert={}", err));
                     break;
                 }
             }
